@@ -452,7 +452,7 @@ def run(ck):
 
     def std_rows(ua, ub):
         rows = [(0, 0), (1, 1), (-1, -1), (F(3, 2), F(3, 2)), (0, 1), (NAN, 1), (1, NAN)]
-        for x in ((F(3, 2), -1) if thorough else (F(3, 2),)):
+        for x in (F(3, 2),):
             y = ph.equalise(x, ua, ub)
             if y is not None:
                 rows.append((x, y))
@@ -508,7 +508,7 @@ def run(ck):
     ints = [F(-2), F(-1), F(1), F(2), F(3)]
     dimless_base = [n for n in rational if ureg._units[n].is_base and set(ureg._units[n].reference) == {"[]"}]
     ck.extra["dimensionless_base_units"] = dimless_base
-    for _ in range(1500 if thorough else 110):
+    for _ in range(700 if thorough else 110):
         da = {}
         for _ in range(rng.randint(1, 3)):
             da[rng.choice(rational)] = rng.choice(ints)
@@ -521,7 +521,7 @@ def run(ck):
             k = rng.choice(dimless_base)
             db[k] = db.get(k, 0) + rng.choice([F(1), F(-1), F(2)])
             db = {k: v for k, v in db.items() if v != 0}
-        do_pair(da, db, std_rows(da, db)[:9], "compound")
+        do_pair(da, db, std_rows(da, db), "compound")
     for n, k in [("hertz", "becquerel"), ("meter", None), ("newton", None), ("second", None)]:
         ua = {n: F(1)}
         for b in ([{k: F(1)}] if k else [{n: F(1), d: F(1)} for d in dimless_base]):
@@ -573,7 +573,7 @@ def run(ck):
                 ck.count("number:" + (ocmp.err or "ok"))
 
     # ---- (7) Unit-level ==, <
-    upairs = rng.sample(pairs, 1500 if thorough else 80) + [(a, b) for a in temps for b in temps] + \
+    upairs = rng.sample(pairs, 500 if thorough else 80) + [(a, b) for a in temps for b in temps] + \
         [tuple(rng.sample(rational, 2)) for _ in range(200 if thorough else 30)]
     unit_vs_number_done = set()
     for a, b in upairs:
